@@ -31,13 +31,16 @@ import c17_util as U
 # (fix: commit in /repo or known: line in known_findings.txt).  Exactly these witness shapes are set
 # aside (printed as PENDING-FINDING, counted in the evidence); everything else still decides the verdict.
 PENDING_FINDINGS = [
-    # "<" comment "@route:" box "@" host ">": rwroute() looks for '@' as the first token, finds the comment,
-    # the source route is not stripped and becomes part of the envelope recipient
-    r"(EnvelopeIsNotTheListedMailboxes|RewrittenHeaderParsesDifferently):mailbox form=angle;route=1;host=[a-z]+;comments=[a-z+]*open[a-z+]*;.*",
-    # "<" box "@" host+ comment ">": rwplus() looks for the host name as the last token, finds the comment,
-    # the plus domain is not applied (the default domain is appended after the '+' instead)
-    r"(EnvelopeIsNotTheListedMailboxes|RewrittenHeaderParsesDifferently):mailbox form=angle;route=[01];host=plus;comments=[a-z+]*close[a-z+]*;.*",
+    # (empty) the two genuine deviations found while building this check - a comment right after '<' hides the source
+    # route from rwroute(), a comment right before '>' hides the trailing '+' from rwplus() - are recorded in
+    # /verif/known_findings.txt (matched on the witness key by Check.violation); the AddrList model leaves these
+    # two shapes out of its environment (PendingExcluded) and reproduces both with PendingExcluded = FALSE
 ]
+
+# The transcription of rwgeneric() in spec/Addr.tla has the same two gaps (it is a transcription), so the list model
+# leaves these two shapes out of its environment (spec/AddrList.tla, PendingExcluded).  Set to False only when
+# qmail-inject.c has been repaired AND the transcription (RwRoute / RwPlus in spec/Addr.tla) follows it.
+MODEL_EXCLUDES_PENDING_SHAPES = True
 
 HOST = U.HOST
 SMTPD_ENV = {"TCPREMOTEIP": "192.0.2.7", "TCPREMOTEHOST": "client.test", "TCPLOCALHOST": "mx.test.example", "TCPLOCALIP": "192.0.2.1"}
@@ -102,6 +105,8 @@ def qh_records(tree, qq, lps):
             v = v.strip(b" \t\n")
             if v.startswith(b"<") and v.endswith(suffix + b">"):
                 hq = v[1:-len(suffix) - 1]
+        if rc == 0 and v is None:
+            return "unobservable", 0           # -n printed no Return-Path field: the header form cannot be seen this way
         if hq is None:
             return None, -1
         full = hq + suffix
@@ -112,6 +117,9 @@ def qh_records(tree, qq, lps):
     got = qq.collect()
     recs = []
     for (i, lp), (hq, rc2) in zip(jobs, res):
+        if hq == "unobservable":
+            recs.append({"hh": 0})
+            continue
         q = got.get("qh%d" % i, [])
         snd, rcpts = None, []
         if q and rc2 == 0:
@@ -145,6 +153,8 @@ def qs_records(ck, tree, qq, lps, batch=150, nworkers=12):
                 cmds = [c.encode("latin1") for c in obs["cmds"]]
                 mail = [c for c in cmds if c[:4].upper() == b"MAIL"]
                 rcpt = [c for c in cmds if c[:4].upper() == b"RCPT"]
+                if not mail and len(g) == 1:
+                    raise Infra("qmail-remote did not reach the scripted server (%s): %r" % (obs["phase_end"], out[:200]))
                 if len(mail) != 1 or len(rcpt) != len(g):
                     sess.append(None)
                     continue
@@ -158,7 +168,9 @@ def qs_records(ck, tree, qq, lps, batch=150, nworkers=12):
                 env.update(SMTPD_ENV)
                 env.update(qq.env("%s%d" % (tagp, gi)))
                 inp = b"HELO client.test\r\n" + s[0] + b"".join(s[1]) + b"DATA\r\nSubject: t\r\n\r\n.\r\nQUIT\r\n"
-                out, rc, to = sessions.run_daemon([tree.bin("qmail-smtpd")], inp, env, cwd=tree.root)
+                out, rc, to = sessions.run_daemon([tree.bin("qmail-smtpd")], inp, env, cwd=tree.root, timeout=60)
+                if to:
+                    raise Infra("qmail-smtpd session did not finish within 60 s (overloaded machine?)")
                 return [c for c, _ in sessions.smtp_replies(out)]
             codes = sessions.pmap(smtpd, list(enumerate(sess)))
             got = qq.collect()
@@ -407,6 +419,42 @@ def printable(b, n=70):
     return "".join(chr(c) if 33 <= c < 127 and c != 92 else (" " if c == 32 else "\\x%02x" % c) for c in b[:n])
 
 
+def validate(ck, recs, tag, per_file, chunk=400, parallel=4):
+    """TLC judges the records: several validator runs side by side (deserialisation is single threaded)."""
+    import threading
+    t0 = time.time()
+    parts = chunks(recs, per_file) or [[]]
+    out = [None] * len(parts)
+    sem = threading.Semaphore(parallel)
+
+    def work(k):
+        with sem:
+            try:
+                f = ck.scratch.path("%s-%d.ndjson" % (tag, k))
+                write_ndjson(f, parts[k])
+                out[k] = tlc_validate_records("AddrRec", "AddrRec.cfg", f, len(parts[k]), chunk=chunk, heap="4g",
+                                              workers=max(2, NCPU // min(parallel, len(parts))), timeout=1500)
+            except Exception as e:
+                out[k] = e
+    ths = [threading.Thread(target=work, args=(k,)) for k in range(len(parts))]
+    for t in ths:
+        t.start()
+    for t in ths:
+        t.join()
+    bad = []
+    tot = TlcResult()
+    for k, o in enumerate(out):
+        if isinstance(o, Exception):
+            raise o if isinstance(o, Infra) else Infra("record validation: %r" % o)
+        b, res = o
+        bad += [(i + k * per_file, why) for i, why in b]
+        tot.distinct += res.distinct
+        tot.generated += res.generated
+    tot.wall = time.time() - t0
+    ck.add_tlc("AddrRec(%s, %d records in %d files)" % (tag, len(recs), len(parts)), tot)
+    return bad, tot.wall
+
+
 # ------------------------------------------------------------------------------------------------
 def main():
     ap = argparse.ArgumentParser()
@@ -425,7 +473,7 @@ def main():
         mf = 3 if thorough else 2
         lcfg = ("SPECIFICATION Spec\nCONSTANTS\n W1 = %d\n W2 = %d\n MaxItems = %d\n PendingExcluded = %s\nINVARIANT Rendered\nINVARIANT Parses\n"
                 "INVARIANT EnvelopeListed\nINVARIANT RewrittenSame\n")
-        pe = "TRUE" if PENDING_FINDINGS else "FALSE"
+        pe = "TRUE" if MODEL_EXCLUDES_PENDING_SHAPES else "FALSE"
         specs = [("AddrQuote", "AddrQuote(21 classes, MaxLen=%d)" % qlen,
                   "SPECIFICATION Spec\nCONSTANTS\n Alphabet = {%s}\n MaxLen = %d\nINVARIANT Hdr822RoundTrip\nINVARIANT Hdr822IsRfc\n"
                   "INVARIANT Smtp821RoundTrip\nINVARIANT Smtp821IsRfc\nINVARIANT RfcReadersAgree\n" % (", ".join(map(str, U.CLASSES_FULL)), qlen), 6),
@@ -483,8 +531,7 @@ def main():
     else:
         full_len, core_len, qh_len = (4, 5, 3) if thorough else (3, 4, 2)
         lps = U.enum_locals(U.CLASSES_FULL, full_len)
-        seen = set(map(tuple, lps))
-        lps += [lp for lp in U.enum_locals(U.CLASSES_CORE, core_len, minlen=full_len + 1) if tuple(lp) not in seen]
+        lps += U.enum_locals(U.CLASSES_CORE12 if thorough else U.CLASSES_CORE, core_len, minlen=full_len + 1)
         lps += U.random_locals(rng, 2000 if thorough else 500)
         ck.cov["local_parts_enumerated"] = len(lps)
         t0 = time.time()
@@ -493,7 +540,7 @@ def main():
         sr, extra = qs_records(ck, tree, qq, lps)
         log("C17: qs done %.1fs" % (time.time() - t0)); t0 = time.time()
         nh = len(U.enum_locals(U.CLASSES_FULL, qh_len))
-        hsel = list(range(nh)) + rng.sample(range(nh, len(lps)), 3000 if thorough else 800)
+        hsel = list(range(nh)) + rng.sample(range(nh, len(lps)), 3000 if thorough else 1500)
         hr = dict(zip(hsel, qh_records(tree, qq, [lps[i] for i in hsel])))
         log("C17: qh done, %d addresses %.1fs" % (len(hsel), time.time() - t0)); t0 = time.time()
         for i, lp in enumerate(lps):
@@ -502,9 +549,11 @@ def main():
             r.update(hr.get(i, {}))
             recs.append(r)
         recs += extra
-        ck.cov["header_form_round_trips"] = len(hsel)
+        ck.cov["header_form_round_trips"] = len([1 for r in hr.values() if r["hh"]])
+        if hsel and not ck.cov["header_form_round_trips"]:
+            log("C17: qmail-inject -n prints no Return-Path field: header form not observable, QhVerdict not exercised")
         hc = enum_cases(rng, 4 if thorough else 1) + mode_flag_cases(rng)
-        nrand = 12000 if thorough else 2500
+        nrand = 12000 if thorough else 3600
         hc += random_cases(rng, nrand // 2, None)
         for ctl in U.CFGS[1:]:
             hc += random_cases(rng, nrand // 6, ctl)
@@ -518,11 +567,8 @@ def main():
     join_models()
     log("C17: models joined %.1fs" % (time.time() - ck.t0))
     # ---- 3. TLC judges every record
-    recfile = ck.scratch.path("c17.ndjson")
-    write_ndjson(recfile, recs)
-    bad, vres = tlc_validate_records("AddrRec", "AddrRec.cfg", recfile, len(recs), chunk=400, heap="8g")
-    ck.add_tlc("AddrRec", vres)
-    log("C17: validated %d records in %.1fs" % (len(recs), vres.wall))
+    bad, vwall = validate(ck, recs, "c17", per_file=30000 if thorough else 12000)
+    log("C17: validated %d records in %.1fs" % (len(recs), vwall))
     ck.cov["traces_validated_against_impl"] = len(recs)
     for i, r in enumerate(recs):
         if r["k"] == "h":
@@ -598,10 +644,7 @@ def main():
                     owner.append(i)
         if singles:
             srecs = run_h_cases(tree, qq, singles, "s")
-            sfile = ck.scratch.path("c17s.ndjson")
-            write_ndjson(sfile, srecs)
-            sbad, sres = tlc_validate_records("AddrRec", "AddrRec.cfg", sfile, len(srecs), chunk=50)
-            ck.add_tlc("AddrRec(shrunk)", sres)
+            sbad, _ = validate(ck, srecs, "c17s", per_file=100000, chunk=50)
             for sidx, why in sbad:
                 explained.add(owner[sidx - 1])
                 c = singles[sidx - 1]
